@@ -159,10 +159,16 @@ reg.add(Proc(A + 'virtual.self_changed', [('self', OBJ), ('originally_changed', 
 
 
 def _mapping_type(ex, node, st):
+    # a newly created mapping is empty.  Modelled without a heap write: the dict contents recorded for an object that was
+    # never allocated before are the empty mapping (heap-model assumption, listed); this keeps every path through the
+    # existing dicts syntactically untouched by the allocation.
     r = ex.fresh_ref(st, 'mapping')
-    ex.set_dictval(st, r, EMPTYMAP)
+    st.assume(ex.dictval(st, r) == EMPTYMAP)
     st.assume(z3.And(is_dict(r), z3.Not(cachedict(r))))
     return [(st, V(DICT, r))]
+
+
+reg.assumptions.append('heap model: the dict contents recorded for a never-allocated object are empty (self._mappingType() returns a new empty mapping)')
 
 
 MUT_CALLS = {'_convert_None_to_Interface': A + '_convert_None_to_Interface', '_normalize_name': A + '_normalize_name',
@@ -463,3 +469,651 @@ reg.add(Proc(A + 'BaseAdapterRegistry.__init__', [('self', OBJ), ('bases', SEQO)
              modifies=['_adapters', '_subscribers', '_provided', '_v_lookup', 'regbases', 'ro', '_generation', '$dict', '$list', '$alloc',
                        '$log', '$notified'],
              ensures=_init_post))
+
+
+# ================================================================== functional effect on the nested mappings (property C09)
+# walk(D, n, key, j)   the node reached from dict object n after following key[0..j) through the dict contents D
+#                      (None as soon as a key is missing -- what `components.get(k)` / `if d is None` see)
+# keyof(req, p)        the path of a registration: the required specifications (None standing for Interface) followed by provided
+# leafval(...)         what _find_leaf answers: the entry `name` of the node at the end of the path, None if there is none
+DS = z3.ArraySort(Obj, ObjMap)
+walk = z3.Function('walk', DS, Obj, SeqO, Int, Obj)
+keyof = z3.Function('registration_key', SeqO, Obj, SeqO)
+_D = z3.Const('wk_D', DS)
+_n = z3.Const('wk_n', Obj)
+_key = z3.Const('wk_key', SeqO)
+_j = z3.Int('wk_j')
+_rq = z3.Const('wk_rq', SeqO)
+_pv = z3.Const('wk_pv', Obj)
+
+
+def gD(D, c, k):
+    """dict.get(k) on the dict object c: None when absent"""
+    v = z3.Select(z3.Select(D, c), k)
+    return z3.If(v == ABSENT, NONE, v)
+
+
+reg.axiom('walk-0', z3.ForAll([_D, _n, _key], walk(_D, _n, _key, 0) == _n, patterns=[walk(_D, _n, _key, 0)]))
+reg.axiom('walk-step', z3.ForAll([_D, _n, _key, _j], z3.Implies(z3.And(0 <= _j, _j < L(_key)), walk(_D, _n, _key, _j + 1) == z3.If(
+    walk(_D, _n, _key, _j) == NONE, NONE, gD(_D, walk(_D, _n, _key, _j), _key[_j]))), patterns=[walk(_D, _n, _key, _j + 1)]))
+reg.axiom('walk-step-seen-from-the-read', z3.ForAll([_D, _n, _key, _j], z3.Implies(z3.And(0 <= _j, _j < L(_key)), walk(_D, _n, _key, _j + 1) == z3.If(
+    walk(_D, _n, _key, _j) == NONE, NONE, gD(_D, walk(_D, _n, _key, _j), _key[_j]))),
+    patterns=[z3.Select(z3.Select(_D, walk(_D, _n, _key, _j)), _key[_j])]))
+reg.axiom('keyof-length', z3.ForAll([_rq, _pv], L(keyof(_rq, _pv)) == L(_rq) + 1, patterns=[keyof(_rq, _pv)]))
+reg.axiom('keyof-elements', z3.ForAll([_rq, _pv, _j], z3.Implies(z3.And(0 <= _j, _j <= L(_rq)), keyof(_rq, _pv)[_j] == z3.If(
+    _j == L(_rq), _pv, z3.If(_rq[_j] == NONE, INTERFACE, _rq[_j]))), patterns=[keyof(_rq, _pv)[_j]]))
+
+# once the path is broken it stays broken (induction on the later position)
+_j0 = z3.Int('wk_j0')
+reg.induct('walk-stays-None', [_D, _n, _key], _j,
+           lambda k: z3.ForAll([_j0], z3.Implies(z3.And(0 <= _j0, _j0 <= k, k <= L(_key), walk(_D, _n, _key, _j0) == NONE),
+                                                 walk(_D, _n, _key, k) == NONE),
+                               patterns=[z3.MultiPattern(walk(_D, _n, _key, _j0), walk(_D, _n, _key, k))]),
+           patterns=[walk(_D, _n, _key, _j)])
+
+
+def leafval(D, LV, byorder, required, provided, name):
+    order = L(required)
+    key = keyof(required, provided)
+    end = walk(D, z3.Select(LV, byorder)[order], key, L(key))
+    return z3.If(z3.Or(L(z3.Select(LV, byorder)) <= order, end == NONE), NONE, gD(D, end, name))
+
+
+def roots_are_dicts(c, byorder):
+    """every per-order root of the by-order list is a dict object"""
+    j = z3.Int('rd_j')
+    s = c.h('$list')[byorder]
+    return ForAllP([j], z3.Implies(z3.And(0 <= j, j < L(s)), z3.And(is_dict(s[j]), s[j] != NONE)), patterns=[s[j]])
+
+
+def inner_nodes_are_dicts(c):
+    """the values stored above the leaf level of a registration tree are dict objects (tree of dicts; established by the mutators)"""
+    o, k = z3.Consts('in_o in_k', Obj)
+    return ForAllP([o, k], z3.Implies(z3.And(treenode(o), z3.Not(leafnode(o)), c.h('$dict')[o][k] != ABSENT),
+                                      z3.And(is_dict(c.h('$dict')[o][k]), c.h('$dict')[o][k] != NONE, treenode(c.h('$dict')[o][k]))),
+                   patterns=[c.h('$dict')[o][k]])
+
+
+treenode = z3.Function('registration_tree_node', Obj, z3.BoolSort())      # ghost: dict objects that are nodes of a registration tree
+leafnode = z3.Function('registration_tree_leaf_level', Obj, z3.BoolSort())  # ghost: ... those holding {name: value}
+
+
+def _fl_L0(c):
+    D = c.h('$dict')
+    root = c.h('$list')[c.a.byorder][L(c.a.required)]
+    key = keyof(c.a.required, c.a.provided)
+    return [('key-is-the-registration-key', SeqEq(c.l.key, key)),
+            ('components-is-the-node-after-i-steps', z3.And(c.l.components == walk(D, root, key, c.i), c.l.components != NONE)),
+            ('nothing-changes', z3.And(c.h('$dict') == c.h0('$dict'), c.h('$list') == c.h0('$list')))]
+
+
+reg.add(Proc(
+    A + 'BaseAdapterRegistry._find_leaf', [('self', OBJ), ('byorder', LISTO), ('required', SEQO), ('provided', OBJ), ('name', OBJ)],
+    source='adapter.py:BaseAdapterRegistry._find_leaf', result=OBJ,
+    calls={'_convert_None_to_Interface': A + '_convert_None_to_Interface'},
+    locals={'components': DICT, 'd': DICT},
+    requires=lambda c: [('by-order-roots-are-dicts', roots_are_dicts(c, c.a.byorder))],
+    ensures=lambda c: [('the-entry-at-the-end-of-the-path-or-None',
+                        c.res == leafval(c.h('$dict'), c.h('$list'), c.a.byorder, c.a.required, c.a.provided, c.a.name)),
+                       ('pure', z3.And(c.h('$dict') == c.h0('$dict'), c.h('$list') == c.h0('$list')))],
+    loops={'L0': Loop(_fl_L0)},
+))
+reg.add(Proc(
+    A + 'BaseAdapterRegistry.registered', [('self', OBJ), ('required', SEQO), ('provided', OBJ), ('name', OBJ)],
+    source='adapter.py:BaseAdapterRegistry.registered', result=OBJ, defaults={'name': V(OBJ, box_name(EMPTYNAME))},
+    calls={'self._find_leaf': A + 'BaseAdapterRegistry._find_leaf', '_normalize_name': A + '_normalize_name'},
+    requires=lambda c: [('by-order-roots-are-dicts', roots_are_dicts(c, c.h('_adapters')[c.a.self]))],
+    ensures=lambda c: [('the-adapter-entry-of-exactly-that-key-or-None',
+                        c.res == leafval(c.h('$dict'), c.h('$list'), c.h('_adapters')[c.a.self], c.a.required, c.a.provided, c.a.name))],
+))
+
+
+def _leafseq(c, v):
+    """a subscription leaf as a sequence: a tuple value (the default leaf type), or a list object"""
+    return z3.If(v == NONE, Empty(SeqO), z3.If(is_seq(v), unbox_seq(v), c.h('$list')[v]))
+
+
+def _has_equal(seq, x):
+    j = z3.Int('he_j')
+    return z3.Exists([j], z3.And(0 <= j, j < L(seq), py_eq(seq[j], x)))
+
+
+reg.add(Proc(
+    A + 'BaseAdapterRegistry.subscribed', [('self', OBJ), ('required', SEQO), ('provided', OBJ), ('subscriber', OBJ)],
+    source='adapter.py:BaseAdapterRegistry.subscribed', result=OBJ, locals={'$containers': True, '$in_uses_eq': True},
+    calls={'self._find_leaf': A + 'BaseAdapterRegistry._find_leaf'},
+    requires=lambda c: [('by-order-roots-are-dicts', roots_are_dicts(c, c.h('_subscribers')[c.a.self])),
+                        ('subscription-leaves-are-tuples-or-lists', (lambda v: z3.Or(v == NONE, is_seq(v), is_list(v)))(
+                            leafval(c.h('$dict'), c.h('$list'), c.h('_subscribers')[c.a.self], c.a.required, c.a.provided,
+                                    box_name(EMPTYNAME))))],
+    ensures=lambda c: [('the-subscriber-iff-an-equal-one-is-in-the-leaf-of-exactly-that-key', c.res == z3.If(
+        _has_equal(_leafseq(c, leafval(c.h('$dict'), c.h('$list'), c.h('_subscribers')[c.a.self], c.a.required, c.a.provided,
+                                       box_name(EMPTYNAME))), c.a.subscriber), c.a.subscriber, NONE))],
+))
+
+
+# ------------------------------------------------------------------ unregister / unsubscribe: exact effect on the containers
+class _Path:
+    """the path of the key (required, provided) in the by-order list `field` of the registry, in the ENTRY state"""
+
+    def __init__(self, c, field):
+        self.c = c
+        self.byo = c.h0(field)[c.a.self]
+        self.D0, self.LV0 = c.h0('$dict'), c.h0('$list')
+        self.order = L(c.a.required)
+        self.key = keyof(c.a.required, c.a.provided)
+        self.root0 = self.LV0[self.byo][self.order]
+        self.n = L(self.key)
+        self.pd = c.h0('_provided')[c.a.self]
+
+    def w0(self, j):
+        return walk(self.D0, self.root0, self.key, j)
+
+    @property
+    def leaf0(self):
+        return self.w0(self.n)
+
+    def leafval0(self, name):
+        return z3.If(z3.Or(L(self.LV0[self.byo]) <= self.order, self.leaf0 == NONE), NONE, gD(self.D0, self.leaf0, name))
+
+
+def path_pre(field):
+    def pre(c):
+        p = _Path(c, field)
+        j, j2 = z3.Ints('pp_j pp_j2')
+        return reg_wf(c) + [
+            ('by-order-roots-are-dicts', roots_are_dicts(c, c.h(field)[c.a.self])),
+            ('path-nodes-are-registration-nodes-not-caches-not-the-count-mapping', ForAllP([j], z3.Implies(
+                z3.And(0 <= j, j <= p.n, p.order < L(p.LV0[p.byo]), p.w0(j) != NONE),
+                z3.And(z3.Not(cachedict(p.w0(j))), p.w0(j) != p.pd, c.h('$alloc')[p.w0(j)])), patterns=[p.w0(j)])),
+            ('by-order-roots-are-neither-caches-nor-the-count-mapping', ForAllP([j2], z3.Implies(
+                z3.And(0 <= j2, j2 < L(p.LV0[p.byo])), z3.And(z3.Not(cachedict(p.LV0[p.byo][j2])), p.LV0[p.byo][j2] != p.pd)),
+                patterns=[p.LV0[p.byo][j2]])),
+            ('path-nodes-are-pairwise-distinct', ForAllP([j, j2], z3.Implies(
+                z3.And(0 <= j, j < j2, j2 <= p.n, p.order < L(p.LV0[p.byo]), p.w0(j2) != NONE), p.w0(j) != p.w0(j2)),
+                patterns=[z3.MultiPattern(p.w0(j), p.w0(j2))])),
+            ('count-mapping-is-no-cache', z3.Not(cachedict(p.pd))),
+            ('by-order-list-is-allocated', c.h('$alloc')[p.byo])]
+    return pre
+
+
+def _only_removed(c, p, name, lo, skip_counts=False):
+    """exact effect of a removal on the dict objects, position by position along the path of the key:
+    dicts off the path are untouched; a path node keeps every entry except its path edge, which is either kept or -- from
+    position lo on, and only if the child is empty now -- deleted; the leaf loses exactly the entry `name`"""
+    o, k = z3.Consts('or_o or_k', Obj)
+    j, j2 = z3.Ints('or_j or_j2')
+    D, D0 = c.h('$dict'), c.h0('$dict')
+    guard = z3.And(z3.Not(cachedict(o)), o != p.pd) if skip_counts else z3.BoolVal(True)
+    offpath = z3.ForAll([j2], z3.Implies(z3.And(0 <= j2, j2 <= p.n), o != p.w0(j2)))
+    return z3.And(
+        ForAllP([o], z3.Implies(z3.And(guard, offpath), D[o] == D0[o]), patterns=[D[o]]),
+        ForAllP([j, k], z3.Implies(z3.And(0 <= j, j < p.n, k != p.key[j]), D[p.w0(j)][k] == D0[p.w0(j)][k]), patterns=[D[p.w0(j)][k]]),
+        ForAllP([j], z3.Implies(z3.And(0 <= j, j < p.n), z3.Or(
+            D[p.w0(j)][p.key[j]] == p.w0(j + 1),
+            z3.And(j >= lo, D[p.w0(j)][p.key[j]] == ABSENT, z3.Not(dict_nonempty(D[p.w0(j + 1)]))))), patterns=[p.w0(j)]),
+        ForAllP([k], z3.Implies(k != name, D[p.leaf0][k] == D0[p.leaf0][k]), patterns=[D[p.leaf0][k]]),
+        D[p.leaf0][name] == ABSENT)
+
+
+def _lookups_are_the_path(c, p, upto):
+    j = z3.Int('lp2_j')
+    s = c.h('$list')[c.l.lookups]
+    return z3.And(L(s) == upto, z3.Not(c.h0('$alloc')[c.l.lookups]),
+                  ForAllP([j], z3.Implies(z3.And(0 <= j, j < upto), z3.And(
+                      is_seq(s[j]), L(unbox_seq(s[j])) == 2, unbox_seq(s[j])[0] == p.w0(j), unbox_seq(s[j])[1] == p.key[j])), patterns=[s[j]]))
+
+
+def _old_lists_untouched(c):
+    o = z3.Const('ol_o', Obj)
+    return ForAllP([o], z3.Implies(c.h0('$alloc')[o], c.h('$list')[o] == c.h0('$list')[o]), patterns=[c.h('$list')[o]])
+
+
+def _unreg_L0(field):
+    def inv(c):
+        p = _Path(c, field)
+        return _quiet(c) + [
+            ('key-is-the-registration-key', SeqEq(c.l.key, p.key)),
+            ('by-order-list', z3.And(c.l.byorder == p.byo, p.order < L(p.LV0[p.byo]), c.l.order == p.order)),
+            ('components-is-the-node-after-i-steps', z3.And(c.l.components == p.w0(c.i), c.l.components != NONE)),
+            ('lookups-records-the-path', _lookups_are_the_path(c, p, c.i))]
+    return inv
+
+
+def _unreg_L1(field, name_of):
+    def inv(c):
+        p = _Path(c, field)
+        return _stable(c) + [
+            ('entries-only-removed-along-the-path', _only_removed(c, p, name_of(c), p.n - c.i)),
+            ('the-entry-is-gone', c.h('$dict')[p.leaf0][name_of(c)] == ABSENT),
+            ('lists-untouched', _old_lists_untouched(c)),
+            ('lookups-records-the-path', _lookups_are_the_path(c, p, p.n))]
+    return inv
+
+
+def _unreg_L2(field, name_of):
+    def inv(c):
+        p = _Path(c, field)
+        j = z3.Int('l2_j')
+        o = z3.Const('l2_o', Obj)
+        cur = c.h('$list')[p.byo]
+        return _stable(c) + [
+            ('entries-only-removed-along-the-path', _only_removed(c, p, name_of(c), 0)),
+            ('the-entry-is-gone', c.h('$dict')[p.leaf0][name_of(c)] == ABSENT),
+            ('by-order-list-only-loses-trailing-empty-mappings', z3.And(
+                L(cur) <= L(p.LV0[p.byo]), SeqEq(cur, Slice(p.LV0[p.byo], 0, L(cur))),
+                z3.ForAll([j], z3.Implies(z3.And(L(cur) <= j, j < L(p.LV0[p.byo])), z3.Not(dict_nonempty(c.h('$dict')[p.LV0[p.byo][j]])))))),
+            ('other-lists-untouched', ForAllP([o], z3.Implies(z3.And(c.h0('$alloc')[o], o != p.byo), c.h('$list')[o] == c.h0('$list')[o]),
+                                                patterns=[c.h('$list')[o]]))]
+    return inv
+
+
+def _count_after(c, p, delta):
+    """the reference count of `provided` in the count mapping after adding delta (entry deleted at 0)"""
+    n0 = unbox_int(p.D0[p.pd][c.a.provided])
+    return z3.If(n0 + delta == 0, ABSENT, box_int(n0 + delta))
+
+
+def _unreg_post(field, name_of, hit_of, delta_of=None):
+    def post(c):
+        p = _Path(c, field)
+        name = name_of(c)
+        hit = hit_of(c, p)
+        j = z3.Int('up_j')
+        o, k = z3.Consts('up_o up_k', Obj)
+        cur = c.h('$list')[p.byo]
+        D = c.h('$dict')
+        return [
+            ('untouched-or-notified-last', untouched_or_notified(c)),
+            ('removes-iff-that-very-object-is-registered', (c.h('$notified')[c.a.self] == c.h0('$notified')[c.a.self] + 1) == hit),
+            ('no-op-otherwise', z3.Implies(z3.Not(hit), old_containers_untouched(c))),
+            ('the-entry-is-gone', z3.Implies(hit, D[p.leaf0][name] == ABSENT) if delta_of is None else z3.BoolVal(True)),
+            ('entries-only-removed-along-the-path-and-only-emptied-mappings-pruned', z3.Implies(hit, _only_removed(c, p, name, 0, True))),
+            ('by-order-list-only-loses-trailing-empty-mappings', z3.Implies(hit, z3.And(
+                L(cur) <= L(p.LV0[p.byo]), SeqEq(cur, Slice(p.LV0[p.byo], 0, L(cur))),
+                z3.ForAll([j], z3.Implies(z3.And(L(cur) <= j, j < L(p.LV0[p.byo])), z3.Not(dict_nonempty(D[p.LV0[p.byo][j]]))))))),
+            ('other-lists-untouched', ForAllP([o], z3.Implies(z3.And(c.h0('$alloc')[o], o != p.byo), c.h('$list')[o] == c.h0('$list')[o]),
+                                                patterns=[c.h('$list')[o]])),
+            ('reference-count-of-provided-follows', z3.Implies(hit, z3.And(
+                D[p.pd][c.a.provided] == _count_after(c, p, -1 if delta_of is None else delta_of(c, p)),
+                ForAllP([k], z3.Implies(k != c.a.provided, D[p.pd][k] == p.D0[p.pd][k]), patterns=[D[p.pd][k]])))),
+        ]
+    return post
+
+
+def _unregister_hit(c, p):
+    lv = p.leafval0(c.a.name)
+    return z3.And(lv != NONE, z3.Or(c.a.value == NONE, lv == c.a.value))
+
+
+_p = reg.procs[A + 'BaseAdapterRegistry.unregister']
+_p.requires = path_pre('_adapters')
+_p.ensures = _unreg_post('_adapters', lambda c: c.a.name, _unregister_hit)
+_p.loops = {'L0': Loop(_unreg_L0('_adapters')), 'L1': Loop(_unreg_L1('_adapters', lambda c: c.a.name)),
+            'L2': Loop(_unreg_L2('_adapters', lambda c: c.a.name))}
+_p.locals = dict(_p.locals, comp=DICT)
+
+# ------------------------------------------------------------------ unsubscribe
+EMPTY_NAME_OBJ = box_name(EMPTYNAME)
+
+
+def _unsub_parts(c, p):
+    old = p.leafval0(EMPTY_NAME_OBJ)
+    oldseq = z3.If(is_seq(old), unbox_seq(old), c.h0('$list')[old])
+    new = z3.If(c.a.value == NONE, Empty(SeqO), rmeq(oldseq, c.a.value, L(oldseq)))
+    present = z3.And(old != NONE, L(oldseq) > 0)
+    hit = z3.And(present, L(new) != L(oldseq))
+    return old, oldseq, new, hit
+
+
+def _unsub_post(c):
+    p = _Path(c, '_subscribers')
+    old, oldseq, new, hit = _unsub_parts(c, p)
+    D, D0 = c.h('$dict'), c.h0('$dict')
+    o, k = z3.Consts('us_o us_k', Obj)
+    j = z3.Int('us_j')
+    cur = c.h('$list')[p.byo]
+    emptied = z3.And(hit, L(new) == 0)
+    shrunk = z3.And(hit, L(new) > 0)
+    return [
+        ('untouched-or-notified-last', untouched_or_notified(c)),
+        ('removes-iff-an-equal-subscriber-is-there', (c.h('$notified')[c.a.self] == c.h0('$notified')[c.a.self] + 1) == hit),
+        ('no-op-otherwise', z3.Implies(z3.Not(hit), old_containers_untouched(c))),
+        ('a-leaf-that-keeps-subscribers-is-replaced-by-the-remaining-ones-in-order-nothing-else-changes', z3.Implies(shrunk, z3.And(
+            D[p.leaf0][EMPTY_NAME_OBJ] == box_seq(new),
+            ForAllP([o, k], z3.Implies(z3.And(z3.Not(cachedict(o)), o != p.pd, z3.Or(o != p.leaf0, k != EMPTY_NAME_OBJ)), D[o][k] == D0[o][k]),
+                    patterns=[D[o][k]]),
+            c.h('$list')[p.byo] == p.LV0[p.byo]))),
+        ('an-emptied-leaf-is-removed-and-only-emptied-mappings-are-pruned', z3.Implies(emptied, _only_removed(c, p, EMPTY_NAME_OBJ, 0, True))),
+        ('by-order-list-only-loses-trailing-empty-mappings', z3.Implies(hit, z3.And(
+            L(cur) <= L(p.LV0[p.byo]), SeqEq(cur, Slice(p.LV0[p.byo], 0, L(cur))),
+            z3.ForAll([j], z3.Implies(z3.And(L(cur) <= j, j < L(p.LV0[p.byo])), z3.Not(dict_nonempty(D[p.LV0[p.byo][j]]))))))),
+        ('other-lists-untouched', ForAllP([o], z3.Implies(z3.And(c.h0('$alloc')[o], o != p.byo), c.h('$list')[o] == c.h0('$list')[o]),
+                                          patterns=[c.h('$list')[o]])),
+        ('reference-count-of-provided-follows-the-number-of-removed-subscribers', z3.Implies(z3.And(hit, c.a.provided != NONE), z3.And(
+            D[p.pd][c.a.provided] == _count_after(c, p, L(new) - L(oldseq)),
+            ForAllP([k], z3.Implies(k != c.a.provided, D[p.pd][k] == p.D0[p.pd][k]), patterns=[D[p.pd][k]])))),
+        ('handlers-do-not-touch-the-reference-counts', z3.Implies(c.a.provided == NONE, D[p.pd] == D0[p.pd])),
+    ]
+
+
+def _unsub_pre(c):
+    p = _Path(c, '_subscribers')
+    old = p.leafval0(EMPTY_NAME_OBJ)
+    return path_pre('_subscribers')(c) + [
+        ('subscription-leaves-are-tuples', z3.Or(old == NONE, is_seq(old)))]
+
+
+_p = reg.procs[A + 'BaseAdapterRegistry.unsubscribe']
+_p.requires = _unsub_pre
+_p.ensures = _unsub_post
+_p.loops = {'L0': Loop(_unreg_L0('_subscribers')), 'L1': Loop(_unreg_L1('_subscribers', lambda c: EMPTY_NAME_OBJ)),
+            'L2': Loop(_unreg_L2('_subscribers', lambda c: EMPTY_NAME_OBJ))}
+_p.locals = dict(_p.locals, comp=DICT)
+
+
+# ------------------------------------------------------------------ register / subscribe: exact effect on the containers
+# Three facts about paths, each proved by induction on every run and used through ground instances supplied at the stores:
+#   W  creating the missing edge at position i of a path leaves the first i steps of the path as they were
+#   A  two heaps that agree on the nodes of the first i steps of a path have the same first i steps
+#   C  if private containers (lookup caches, the reference-count mapping) are never stored as values of other dicts, no node
+#      of a path that starts outside them is one of them
+def upd(D, o, k, v):
+    return z3.Store(D, o, z3.Store(z3.Select(D, o), k, v))
+
+
+_v = z3.Const('wu_v', Obj)
+_pd = z3.Const('wu_pd', Obj)
+_D2 = z3.Const('wu_D2', DS)
+_jj = z3.Int('wu_j')
+_i2 = z3.Int('wu_i')
+
+
+def _lemma_W(D, n, key, v, i, j, ref=None, k=None):
+    wi = walk(D, n, key, i)
+    ref = wi if ref is None else ref
+    k = key[i] if k is None else k
+    return z3.Implies(z3.And(0 <= i, i < L(key), wi != NONE, ref == wi, k == key[i], gD(D, wi, key[i]) == NONE, 0 <= j, j <= i),
+                      walk(upd(D, ref, k, v), n, key, j) == walk(D, n, key, j))
+
+
+reg.induct('creating-a-missing-edge-keeps-the-path-so-far', [_D, _n, _key, _v, _i2], _j,
+           lambda j: _lemma_W(_D, _n, _key, _v, _i2, j), export=False)
+
+
+def _lemma_A(D, D2, n, key, i):
+    return z3.Implies(z3.And(0 <= i, i <= L(key), z3.ForAll([_jj], z3.Implies(
+        z3.And(0 <= _jj, _jj < i, walk(D, n, key, _jj) != NONE), z3.Select(D2, walk(D, n, key, _jj)) == z3.Select(D, walk(D, n, key, _jj))))),
+        walk(D2, n, key, i) == walk(D, n, key, i))
+
+
+reg.induct('heaps-that-agree-on-the-path-nodes-have-the-same-path', [_D, _D2, _n, _key], _j,
+           lambda i: _lemma_A(_D, _D2, _n, _key, i), export=False)
+
+
+_o, _k = z3.Consts('wu_o wu_k', Obj)
+
+
+def _lemma_U(D, n, key, o, k, v, i):
+    """writing one entry (o, k) that is not an edge of the first i steps of a path leaves those steps as they were"""
+    return z3.Implies(z3.And(0 <= i, i <= L(key), z3.ForAll([_jj], z3.Implies(z3.And(0 <= _jj, _jj < i), z3.Not(z3.And(
+        walk(D, n, key, _jj) == o, key[_jj] == k))))), walk(upd(D, o, k, v), n, key, i) == walk(D, n, key, i))
+
+
+reg.induct('a-write-off-the-path-keeps-the-path', [_D, _n, _key, _o, _k, _v], _j,
+           lambda i: _lemma_U(_D, _n, _key, _o, _k, _v, i), export=False)
+
+
+def private(o, pd):
+    return z3.Or(cachedict(o), o == pd)
+
+
+def closure(D, pd):
+    """private containers are not stored as values of dicts that are not private themselves"""
+    o, k = z3.Consts('cl_o cl_k', Obj)
+    return ForAllP([o, k], z3.Implies(z3.Not(private(o, pd)), z3.Not(private(z3.Select(z3.Select(D, o), k), pd))),
+                   patterns=[z3.Select(z3.Select(D, o), k)])
+
+
+def _lemma_C(D, n, key, pd, j):
+    return z3.Implies(z3.And(0 <= j, j <= L(key), pd != NONE, z3.Not(private(n, pd)), closure(D, pd)), z3.Not(private(walk(D, n, key, j), pd)))
+
+
+reg.axiom('None-and-the-absent-marker-are-no-containers', z3.And(z3.Not(cachedict(NONE)), z3.Not(cachedict(ABSENT))))
+reg.induct('no-path-node-is-a-private-container', [_D, _n, _key, _pd], _j,
+           lambda j: _lemma_C(_D, _n, _key, _pd, j), export=False)
+
+
+def _C_instance(D, root, key, pd):
+    """instance of lemma C for one heap, with the position quantified inside (closure(D) is proved once)"""
+    return z3.Implies(z3.And(pd != NONE, z3.Not(private(root, pd)), closure(D, pd)),
+                      ForAllP([_jj], z3.Implies(z3.And(0 <= _jj, _jj <= L(key)), z3.Not(private(walk(D, root, key, _jj), pd))),
+                              patterns=[walk(D, root, key, _jj)]))
+
+
+def _path_facts(D, D2, root, key, pd):
+    """ground instances of C (for every position) and A (whole path) for a heap change D -> D2"""
+    return [_C_instance(D, root, key, pd), _lemma_A(D, D2, root, key, L(key))]
+
+
+def _store_hook(field):
+    """ghost: instances of the lemmas above for the dict stores of register/subscribe"""
+    def hook(ex, st, before, ref, k, v):
+        env = st.env
+        if 'key' not in env or 'byorder' not in env or 'order' not in env:
+            return []
+        key = env['key'].t
+        root = st.heap.get('$list')[env['byorder'].t][env['order'].t]
+        pd = ex.heap0.get('_provided')[ex.args['self'].t] if hasattr(ex, 'heap0') else None
+        idx = env.get('$i_L1')
+        if idx is not None and 'k' in env and k.eq(box(env['k'])):
+            # components[k] = d inside the walk: ref is the node at position i, k is key[i]
+            return [_lemma_W(before, root, key, v, idx.t, idx.t, ref, k)]
+        pd = st.heap.get('_provided')[ex.args['self'].t]
+        return [_C_instance(before, root, key, pd), _lemma_U(before, root, key, ref, k, v, L(key))]
+    return hook
+
+
+def _changed_with_path_facts(field):
+    """self.changed(self): the contract of the registry's changed() (caches only), plus instances of C and A for that heap change"""
+    def handler(ex, node, st):
+        out = []
+        for s, vs in ex.ev_list(node.args, st):
+            before = s.heap.get('$dict')
+            args = {'self': ex.args['self'], 'originally_changed': vs[0]}
+            for s2, val in ex.apply_contract(node, s, reg.procs[A + 'virtual.self_changed'], args):
+                env = s2.env
+                if 'key' in env and 'byorder' in env and 'order' in env:
+                    root = s2.heap.get('$list')[env['byorder'].t][env['order'].t]
+                    for f in _path_facts(before, s2.heap.get('$dict'), root, env['key'].t, s2.heap.get('_provided')[ex.args['self'].t]):
+                        s2.assume(f)
+                out.append((s2, val))
+        return out
+    return handler
+
+
+def _added_ok(c, o, k):
+    """an entry that register/subscribe may add to a dict that existed before: a missing edge, now pointing to a fresh dict"""
+    v = c.h('$dict')[o][k]
+    return z3.And(gD(c.h0('$dict'), o, k) == NONE, z3.Not(c.h0('$alloc')[v]), c.h('$alloc')[v], z3.Not(cachedict(v)), is_dict(v))
+
+
+def _only_gains(c, leaf=None, name=None, skip=False):
+    o, k = z3.Consts('og_o og_k', Obj)
+    D, D0 = c.h('$dict'), c.h0('$dict')
+    pd = c.h0('_provided')[c.a.self]
+    guard = z3.And(c.h0('$alloc')[o], z3.Not(cachedict(o)), o != pd) if skip else c.h0('$alloc')[o]
+    alts = [D[o][k] == D0[o][k], _added_ok(c, o, k)]
+    if leaf is not None:
+        alts.append(z3.And(o == leaf, k == name))
+    return ForAllP([o, k], z3.Implies(guard, z3.Or(*alts)), patterns=[D[o][k]])
+
+
+def _byorder_grows(c, byo):
+    j = z3.Int('bg_j')
+    cur, old = c.h('$list')[byo], c.h0('$list')[byo]
+    return z3.And(L(old) <= L(cur), SeqEq(old, Slice(cur, 0, L(old))),
+                  ForAllP([j], z3.Implies(z3.And(L(old) <= j, j < L(cur)), z3.And(
+                      z3.Not(c.h0('$alloc')[cur[j]]), c.h('$alloc')[cur[j]], z3.Not(cachedict(cur[j])), is_dict(cur[j]), cur[j] != NONE)),
+                          patterns=[cur[j]]))
+
+
+def _reg_L0(field):
+    def inv(c):
+        byo = c.h0(field)[c.a.self]
+        o = z3.Const('r0_o', Obj)
+        j = z3.Int('r0_j')
+        cur = c.h('$list')[byo]
+        return _stable(c) + [
+            ('byorder-alive', z3.And(c.l.byorder == byo, c.l.order == L(c.a.required))),
+            ('by-order-list-only-grows-by-fresh-empty-mappings', _byorder_grows(c, byo)),
+            ('appended-mappings-are-empty', ForAllP([j], z3.Implies(z3.And(L(c.h0('$list')[byo]) <= j, j < L(cur)),
+                                                                    c.h('$dict')[cur[j]] == EMPTYMAP), patterns=[cur[j]])),
+            ('old-dicts-untouched', ForAllP([o], z3.Implies(c.h0('$alloc')[o], c.h('$dict')[o] == c.h0('$dict')[o]), patterns=[c.h('$dict')[o]])),
+            ('private-containers-stay-private', closure(c.h('$dict'), c.h0('_provided')[c.a.self])),
+            ('other-lists-untouched', ForAllP([o], z3.Implies(z3.And(c.h0('$alloc')[o], o != byo), c.h('$list')[o] == c.h0('$list')[o]),
+                                              patterns=[c.h('$list')[o]]))]
+    return inv
+
+
+def _reg_L1(field):
+    def inv(c):
+        byo = c.h0(field)[c.a.self]
+        pd = c.h0('_provided')[c.a.self]
+        key = keyof(c.a.required, c.a.provided)
+        root = c.h('$list')[byo][L(c.a.required)]
+        o = z3.Const('r1_o', Obj)
+        comp = c.l.components
+        w0i = walk(c.h0('$dict'), c.h0('$list')[byo][L(c.a.required)], key, c.i)
+        return _stable(c) + [
+            ('byorder-alive', z3.And(c.l.byorder == byo, c.l.order == L(c.a.required), L(c.h('$list')[byo]) > L(c.a.required))),
+            ('key-is-the-registration-key', SeqEq(c.l.key, key)),
+            ('components-is-the-node-after-i-steps', z3.And(comp == walk(c.h('$dict'), root, key, c.i), comp != NONE)),
+            ('components-is-a-registration-node', z3.And(c.h('$alloc')[comp], z3.Not(cachedict(comp)), comp != pd)),
+            ('still-on-the-old-path-and-nothing-written-or-in-fresh-territory', z3.If(
+                c.h0('$alloc')[comp],
+                z3.And(ForAllP([o], z3.Implies(c.h0('$alloc')[o], c.h('$dict')[o] == c.h0('$dict')[o]), patterns=[c.h('$dict')[o]]),
+                       L(c.a.required) < L(c.h0('$list')[byo]), comp == w0i),
+                z3.And(c.h('$dict')[comp] == EMPTYMAP, z3.Implies(L(c.a.required) < L(c.h0('$list')[byo]), w0i == NONE)))),
+            ('existing-dicts-only-gain-edges-to-fresh-dicts', _only_gains(c)),
+            ('private-containers-stay-private', closure(c.h('$dict'), pd)),
+            ('by-order-list-only-grows-by-fresh-empty-mappings', _byorder_grows(c, byo)),
+            ('other-lists-untouched', ForAllP([o], z3.Implies(z3.And(c.h0('$alloc')[o], o != byo), c.h('$list')[o] == c.h0('$list')[o]),
+                                              patterns=[c.h('$list')[o]]))]
+    return inv
+
+
+def _reg_pre(field):
+    def pre(c):
+        byo = c.h(field)[c.a.self]
+        pd = c.h('_provided')[c.a.self]
+        key = keyof(c.a.required, c.a.provided)
+        j = z3.Int('rp_j')
+        s = c.h('$list')[byo]
+        D = c.h('$dict')
+        order = L(c.a.required)
+        return reg_wf(c) + [
+            ('by-order-roots-are-registration-nodes', ForAllP([j], z3.Implies(z3.And(0 <= j, j < L(s)), z3.And(
+                is_dict(s[j]), s[j] != NONE, c.h('$alloc')[s[j]], z3.Not(cachedict(s[j])), s[j] != pd)), patterns=[s[j]])),
+            ('path-nodes-existed-before', ForAllP([j], z3.Implies(
+                z3.And(0 <= j, j <= L(key), order < L(s), walk(D, s[order], key, j) != NONE), c.h('$alloc')[walk(D, s[order], key, j)]),
+                patterns=[walk(D, s[order], key, j)])),
+            ('private-containers-are-not-stored-as-values', closure(D, pd)),
+            ('the-value-is-no-private-container', z3.And(z3.Not(private(c.a.value, pd)), c.a.value != ABSENT)),
+            ('count-mapping-is-a-dict-and-no-cache', z3.And(z3.Not(cachedict(pd)), c.h('$alloc')[pd], is_dict(pd), pd != NONE)),
+            ('by-order-list-is-allocated', c.h('$alloc')[byo])]
+    return pre
+
+
+reg.axiom('lookup-caches-are-dicts', z3.ForAll([_n], z3.Implies(cachedict(_n), is_dict(_n)), patterns=[cachedict(_n)]))
+
+
+def _reg_post(c):
+    byo = c.h0('_adapters')[c.a.self]
+    pd = c.h0('_provided')[c.a.self]
+    D, D0 = c.h('$dict'), c.h0('$dict')
+    key = keyof(c.a.required, c.a.provided)
+    leaf = walk(D, c.h('$list')[byo][L(c.a.required)], key, L(key))
+    before = leafval(D0, c.h0('$list'), byo, c.a.required, c.a.provided, c.a.name)
+    o, k = z3.Consts('rq_o rq_k', Obj)
+    notified1 = c.h('$notified')[c.a.self] == c.h0('$notified')[c.a.self] + 1
+    reg_ = c.a.value != NONE
+    n0 = z3.If(D0[pd][c.a.provided] == ABSENT, 0, unbox_int(D0[pd][c.a.provided]))
+    return [
+        ('None-means-unregister', z3.Implies(c.a.value == NONE, untouched_or_notified(c))),
+        ('the-value-is-registered-under-exactly-that-key', z3.Implies(reg_, leafval(
+            D, c.h('$list'), byo, c.a.required, c.a.provided, c.a.name) == c.a.value)),
+        ('re-registering-the-same-object-is-a-no-op-anything-else-notifies', z3.Implies(reg_, z3.And(
+            notified1 == (before != c.a.value),
+            z3.Or(notified1, c.h('$notified')[c.a.self] == c.h0('$notified')[c.a.self])))),
+        ('existing-dicts-only-gain-edges-to-fresh-dicts-and-the-leaf-entry', z3.Implies(reg_, _only_gains(c, leaf, c.a.name, True))),
+        ('by-order-list-only-grows-by-fresh-empty-mappings', z3.Implies(reg_, _byorder_grows(c, byo))),
+        ('other-lists-untouched', z3.Implies(reg_, ForAllP([o], z3.Implies(z3.And(c.h0('$alloc')[o], o != byo), c.h('$list')[o] == c.h0('$list')[o]),
+                                                           patterns=[c.h('$list')[o]]))),
+        ('reference-count-of-provided-goes-up-by-one-when-an-entry-is-written', z3.Implies(z3.And(reg_, notified1), z3.And(
+            D[pd][c.a.provided] == box_int(n0 + 1),
+            ForAllP([k], z3.Implies(k != c.a.provided, D[pd][k] == D0[pd][k]), patterns=[D[pd][k]])))),
+        ('a-no-op-leaves-the-reference-counts-alone', z3.Implies(z3.And(reg_, z3.Not(notified1)), D[pd] == D0[pd])),
+    ]
+
+
+def _name_is_no_key(c, name=None):
+    j = z3.Int('nk_j')
+    key = keyof(c.a.required, c.a.provided)
+    name = c.a.name if name is None else name
+    return ('the-name-is-not-a-specification-of-the-key', ForAllP([j], z3.Implies(z3.And(0 <= j, j < L(key)), key[j] != name),
+                                                                   patterns=[key[j]]))
+
+
+_p = reg.procs[A + 'BaseAdapterRegistry.register']
+_p.requires = lambda c: _reg_pre('_adapters')(c) + [_name_is_no_key(c)] + [
+    (lbl + '-when-None-unregisters', z3.Implies(c.a.value == NONE, f)) for lbl, f in path_pre('_adapters')(c)[len(reg_wf(c)):]]
+_p.locals = dict(_p.locals, **{'$nomerge': True})
+_p.ensures = _reg_post
+_p.loops = {'L0': Loop(_reg_L0('_adapters')), 'L1': Loop(_reg_L1('_adapters'))}
+_p.on_dict_store = _store_hook('_adapters')
+_p.calls = dict(_p.calls, **{'self.changed': _changed_with_path_facts('_adapters')})
+
+
+# ------------------------------------------------------------------ subscribe
+def _sub_post(c):
+    byo = c.h0('_subscribers')[c.a.self]
+    pd = c.h0('_provided')[c.a.self]
+    D, D0 = c.h('$dict'), c.h0('$dict')
+    key = keyof(c.a.required, c.a.provided)
+    leaf = walk(D, c.h('$list')[byo][L(c.a.required)], key, L(key))
+    before = leafval(D0, c.h0('$list'), byo, c.a.required, c.a.provided, EMPTY_NAME_OBJ)
+    oldseq = z3.If(before == NONE, Empty(SeqO), z3.If(is_seq(before), unbox_seq(before), c.h0('$list')[before]))
+    o, k = z3.Consts('sq_o sq_k', Obj)
+    n0 = z3.If(D0[pd][c.a.provided] == ABSENT, 0, unbox_int(D0[pd][c.a.provided]))
+    return [
+        ('always-notifies', c.h('$notified')[c.a.self] == c.h0('$notified')[c.a.self] + 1),
+        ('the-subscriber-is-appended-to-the-leaf-of-exactly-that-key', leafval(
+            D, c.h('$list'), byo, c.a.required, c.a.provided, EMPTY_NAME_OBJ) == box_seq(Concat(oldseq, Unit(c.a.value)))),
+        ('existing-dicts-only-gain-edges-to-fresh-dicts-and-the-leaf-entry', _only_gains(c, leaf, EMPTY_NAME_OBJ, True)),
+        ('by-order-list-only-grows-by-fresh-empty-mappings', _byorder_grows(c, byo)),
+        ('other-lists-untouched', ForAllP([o], z3.Implies(z3.And(c.h0('$alloc')[o], o != byo), c.h('$list')[o] == c.h0('$list')[o]),
+                                          patterns=[c.h('$list')[o]])),
+        ('reference-count-of-provided-goes-up-by-one', z3.Implies(c.a.provided != NONE, z3.And(
+            D[pd][c.a.provided] == box_int(n0 + 1),
+            ForAllP([k], z3.Implies(k != c.a.provided, D[pd][k] == D0[pd][k]), patterns=[D[pd][k]])))),
+        ('handlers-do-not-touch-the-reference-counts', z3.Implies(c.a.provided == NONE, D[pd] == D0[pd])),
+    ]
+
+
+def _sub_pre(c):
+    byo = c.h('_subscribers')[c.a.self]
+    before = leafval(c.h('$dict'), c.h('$list'), byo, c.a.required, c.a.provided, EMPTY_NAME_OBJ)
+    return _reg_pre('_subscribers')(c) + [
+        _name_is_no_key(c, EMPTY_NAME_OBJ),
+        ('subscription-leaves-are-tuples', z3.Or(before == NONE, is_seq(before))),
+        ('the-subscriber-is-an-object', c.a.value != ABSENT)]
+
+
+_p = reg.procs[A + 'BaseAdapterRegistry.subscribe']
+_p.requires = _sub_pre
+_p.ensures = _sub_post
+_p.locals = dict(_p.locals, **{'$nomerge': True})
+_p.loops = {'L0': Loop(_reg_L0('_subscribers')), 'L1': Loop(_reg_L1('_subscribers'))}
+_p.on_dict_store = _store_hook('_subscribers')
+_p.calls = dict(_p.calls, **{'self.changed': _changed_with_path_facts('_subscribers')})
